@@ -4,7 +4,7 @@
 # A seeded dir may name further checks in meta.json ("also": ["C11"]).
 cd "$(dirname "$0")/.."
 lanes=${1:-4}
-ids=($(ls seeded | sort))
+ids=($(ls seeded | sort | grep -E "${2:-.}"))
 run_lane() {
   lane=$1; W=/tmp/seedlane_$lane
   i=0
